@@ -3,7 +3,7 @@
 independent confirmation (/tmp/confirm/results/<id>.json, tools/confirm_mutant.sh) succeeded. caught_by is filled by
 tools/mutant_matrix.sh (results in /tmp/confirm/matrix/<id>.<PROP>.rc)."""
 import glob, json, os, re, shutil
-INCS = [("/verif/seeded/_incoming", "", 1), ("/verif/seeded/_incoming2", "b", 2)]
+INCS = [("/verif/seeded/_incoming", "", 1), ("/verif/seeded/_incoming2", "b", 2), ("/verif/seeded/_incoming3", "c", 3)]
 NEEDS = {
 "C01-1": "callable terminal currents that go from non-zero to exactly zero on every terminal (switched-off pulse; or thermalisation with a ramp starting at 0)",
 "C01-2": "sequence on ONE Device object: make_mesh, terminal_info()/solve, make_mesh with other boundary vertices, solve with non-zero currents",
@@ -48,7 +48,28 @@ NEEDS = {
 }
 ROUND = 1
 MISSED_FIRST = {"C01-1", "C01-2", "C02-2", "C03-1", "C03-2", "C04-2", "C05-1", "C06-1", "C09-2", "C10-2", "C16-1", "C19-2", "C20-1"}
-base_fail = open("/tmp/confirm/results/BASE.failing.txt").read() if os.path.exists("/tmp/confirm/results/BASE.failing.txt") else None
+base_fails = [open(f).read() for f in ("/tmp/confirm/results/BASE.failing.txt", "/tmp/confirm/results/BASE2.failing.txt") if os.path.exists(f)]
+MISSED_FIRST |= set(l.strip() for l in open("/verif/seeded/missed_first.txt")) if os.path.exists("/verif/seeded/missed_first.txt") else set()
+
+
+def needs_from_notes(path):
+    """the 'what is needed for it to manifest' paragraph of the sub-agent's notes"""
+    if not os.path.exists(path):
+        return "see notes.md"
+    lines = open(path).read().splitlines()
+    for i, l in enumerate(lines):
+        if l.startswith("#") and re.search(r"needed|manifest|trigger", l, re.I):
+            body = []
+            for m in lines[i + 1:]:
+                if m.startswith("#"):
+                    break
+                body.append(m.strip())
+            t = re.sub(r"\s+", " ", " ".join(x for x in body if x))
+            if t:
+                return t[:600]
+    m = re.search(r"(Trigger|manifests? only|It manifests)[:\s](.{20,500})", open(path).read(), re.I | re.S)
+    return re.sub(r"\s+", " ", m.group(0))[:500] if m else "see notes.md"
+
 import subprocess
 WT = "/tmp/regenwt"
 subprocess.run(["git", "-C", "/repo", "worktree", "remove", "--force", WT], capture_output=True)
@@ -84,7 +105,7 @@ for d, tag, rnd in [(d, tag, rnd) for (inc, tag, rnd) in INCS for d in sorted(gl
             continue
         res = json.load(open(resf))
         failing = f"/tmp/confirm/results/{mid}.failing.txt"
-        same_fail = (base_fail is not None and os.path.exists(failing) and open(failing).read() == base_fail)
+        same_fail = (os.path.exists(failing) and open(failing).read() in base_fails)
         ok = res["patch_applies"] and res["demo_rc_clean"] == 0 and res["demo_rc_mutant"] not in (0, -1) and same_fail
         if not ok:
             print("NOT KEPT", mid, res, same_fail)
@@ -106,9 +127,9 @@ for d, tag, rnd in [(d, tag, rnd) for (inc, tag, rnd) in INCS for d in sorted(gl
         notcaught = sorted(os.path.basename(f).split(".")[1] for f in glob.glob(f"/tmp/confirm/matrix/{mid}.*.rc") if open(f).read().strip() == "0")
         first = [l.strip("# ").strip() for l in ntext.splitlines() if l.strip()][:1]
         meta = {
-            "id": mid, "property": prop, "origin": f"independent sub-agent given only the property text and a scratch worktree (round {rnd}" + (", told to avoid the round-1 mechanisms)" if rnd == 2 else ")"),
+            "id": mid, "property": prop, "origin": f"independent sub-agent given only the property text and a scratch worktree (round {rnd}" + (", told to avoid the mechanisms of the earlier rounds)" if rnd >= 2 else ")"),
             "title": first[0] if first else "", "ported_to_fixed_tree": ported,
-            "needs_to_manifest": NEEDS.get(mid, "see notes.md"),
+            "needs_to_manifest": NEEDS.get(mid) or needs_from_notes(notes),
             "confirmed": {"head": res["head"], "patch_applies_to_head": True, "demo_exit_without_change": res["demo_rc_clean"], "demo_exit_with_change": res["demo_rc_mutant"],
                           "repository_tests": "non-visualisation test files, failing set identical to the unchanged tree: " + res["tests_summary"].strip(),
                           "how": "tools/confirm_mutant.sh in a fresh git worktree of /repo HEAD (removed afterwards)"},
